@@ -235,6 +235,7 @@ class C14(Check):
     prop = "C14"
     required_theorems = ["modify_restore_partial", "modify_restore_absent_counterexample", "modify_restore_below_counterexample",
                          "modify_restore_emptydict_counterexample", "restore_clears_original", "modify_restore_meets_spec_partial",
+                         "modification_survives_restart", "modifications_survive_restart",
                          "serialize_id", "deserialize_id_partial", "state_roundtrip_partial", "state_roundtrip_counterexample",
                          "crash_old_or_new", "complete_write_reads_new", "crash_leaves_only_tmp", "atomic_write_conforms"]
     technique = ("Lean 4 proof (round-trip law composed with C20's JSON/netstring theorems, algebra of modify/restore on value trees, invariant over "
@@ -242,7 +243,8 @@ class C14(Check):
                  "differential execution of the real ModifyAttribute/RestoreAttribute, DumpObjects -> fresh process -> RestoreObjects + modified-attributes "
                  "replay, and of every kill point of DumpObjects / DumpModifiedAttributes / AtomicFile::Write with the system calls interposed")
     level_text = ("Machine-checked theorems (Lean 4 kernel): restore(modify(o,p,v),p) = o for every object, path and value where p names an existing non-dictionary "
-                  "value (or a top-level attribute) and nothing at or below p is already modified, and restore removes every original entry at/below the path; "
+                  "value (or a top-level attribute) and nothing at or below p is already modified, and restore removes every original entry at/below the path; any list of such modifications on pairwise unrelated paths (made in attribute-string order) "
+                  "is written by DumpModifiedAttributes exactly and its replay at start-up reproduces the object exactly; "
                   "for every list of objects whose state trees name only registered types in `type` keys and EVERY chunking of the state file, reading the frames, "
                   "JSON-decoding and deserialising onto freshly created objects yields exactly the dumped state (C20's json_roundtrip and "
                   "frames_split_regardless_of_chunking composed with Serialize/Deserialize); for every prefix of AtomicFile's system-call sequence and every crash "
@@ -252,8 +254,8 @@ class C14(Check):
                   "if repairing that recorded hazard in the minimised witness and re-running makes the failure vanish. The models are tied to the code by running the real functions on the same inputs "
                   "and diffing every observation; the specification predicates are evaluated on the implementation's own observations")
     level_note = ("Trusted: Lean kernel (+ propext, Classical.choice, Quot.sound), sampled correspondence, harness/driver, the kernel's rename atomicity and fsync "
-                  "durability (parameters of the crash model). Assumed, fuzzed by C20: binary64 <-> text. Not modelled: ConfigWriter/DSL round trip of the "
-                  "modified-attributes script (C17; exercised end to end by the S cases), field types/validation, a user dictionary whose `type` names a registered type.")
+                  "durability (parameters of the crash model). Assumed, fuzzed by C20: binary64 <-> text. Not modelled: the ConfigWriter/DSL text of the "
+                  "modified-attributes script (C17; which entries are written with which values and their replay ARE modelled and diffed on every S case), field types/validation, a user dictionary whose `type` names a registered type.")
     trusted_base = [
         "modelled, not verified: ConfigObject::ModifyAttribute/RestoreAttribute on value trees (deep-clone semantics), Serialize/Deserialize on trees with the `type` special case, "
         "DumpObjects/RestoreObject framing, AtomicFile's call sequence (mkstemp, chmod, write*, fsync, close, rename)",
